@@ -132,3 +132,6 @@ PROOFS = [
      'replay': {'driver': 'cookie_rt', 'argv': ['$*this.path.has', '$*this.domain.has', '$*this.maxAge.has', '$*this.maxAge.v', '$*this.expires.has',
                                                 '$*this.secure', '$*this.httpOnly', '$*this.ext.n']}},
 ]
+# thorough tier: write/parse round trip of the real code over every attribute subset, three Max-Age values and 0..3 extension attributes
+NATIVE_SWEEPS = [{'name': 'cookie_roundtrip', 'driver': 'cookie_rt', 'props': ['C17'], 'what': 'Cookie::write + Cookie::fromRaw',
+                  'argvs': [[p, d, m, mv, e, s, h, n] for p in (0, 1) for d in (0, 1) for (m, mv) in ((0, 0), (1, 0), (1, 1), (1, 2147483647)) for e in (0, 1) for s in (0, 1) for h in (0, 1) for n in (0, 1, 2, 3)]}]
